@@ -45,7 +45,7 @@ func history(h *apph.H, r *emit.Rand, richness int) (log []string, err error) {
 		if !blocksOK {
 			return
 		}
-		if _, e := h.NextBlock(time.Duration(1+r.Intn(5)) * time.Second); e != nil {
+		if _, e := h.NextBlock(time.Duration(1+r.Intn(5))*time.Second + time.Duration(r.Intn(1_000_000_000))); e != nil {
 			blocksOK = false
 			log = append(log, "block: ERR "+firstLine(e.Error()))
 		}
@@ -184,7 +184,7 @@ func history(h *apph.H, r *emit.Rand, richness int) (log []string, err error) {
 
 	// ---- from here on: exported keeper setters, on the live state, no more blocks
 	ctx := h.Ctx()
-	future := h.Time.Add(time.Duration(1000+r.Intn(100000)) * time.Second)
+	future := h.Time.Add(time.Duration(1000+r.Intn(100000))*time.Second + time.Duration(r.Intn(1_000_000_000)))
 	valAddr := func() sdk.ValAddress { return sdk.ValAddress(acct().Addr) }
 	randBytes := func(n int) []byte {
 		b := make([]byte, n)
@@ -230,7 +230,7 @@ func history(h *apph.H, r *emit.Rand, richness int) (log []string, err error) {
 	for i := 0; i < nda; i++ {
 		uri := fmt.Sprintf("ipfs://item-%d-%d", i, r.Intn(1000))
 		pd := datypes.PublishedData{MetadataUri: uri, ParityShardCount: uint64(1 + r.Intn(4)), ShardDoubleHashes: [][]byte{randBytes(32), randBytes(32), randBytes(32)},
-			Timestamp: future.Add(time.Duration(i) * time.Second), Status: datypes.Status(1 + r.Intn(4)), Publisher: acct().Addr.String(),
+			Timestamp: future.Add(time.Duration(i)*time.Second + time.Duration(r.Intn(1_000_000_000))), Status: datypes.Status(1 + r.Intn(4)), Publisher: acct().Addr.String(),
 			PublishDataCollateral: sdk.NewCoins(sdk.NewInt64Coin("urise", int64(1+r.Intn(1000)))), PublishedTimestamp: h.Time}
 		if r.Bool() {
 			pd.Challenger = acct().Addr.String()
